@@ -31,7 +31,7 @@ Fixpoint cut (lens : list nat) (l : list drec) : list (list drec) :=
 
 Definition round_lens (o : op) : list nat :=
   match o with
-  | OTick _ scheds => map (@length ev) scheds
+  | OTick _ scheds => map (@length item) scheds
   | OFlush _ sched => [length sched]
   | _ => []
   end.
